@@ -22,6 +22,10 @@ CLAIMED = {
             'TLC invariants MarkerIdx/EofClears + refinement; TLC trace validation of EOF/TIMEOUT outcome clauses on every entry point',
             'outcome table (index if listed else exact exception class, before = all pending, after = marker class, pending cleared after EOF, EOF sticky) decided on every recorded call',
             'as C01; real transports are added by the transport checks', '5 C04', 'expect'),
+    'C05': ('model_checking',
+            'TLA+ model Deadline (expect_loop remaining-time arithmetic, -1/None/0 conventions per entry point, waitnoecho) checked by TLC for every arrival schedule; timed executions of the real entry points on real transports under a virtual clock validated by TLC against DeadlineTrace; read_nonblocking-level interleavings via PtyRead/FdRead/SockRead replays',
+            'TLC proves Bounded / NotEarly / NoneNeverTimesOut / ZeroStillLooks / MinusOneIsDefault / MatchBeatsTimeout on the model and evaluates the same clauses on thousands of real timed executions (pty, fd, socket, popen; expect, expect_exact, expect_list, expect_loop, read_nonblocking, waitnoecho), durations measured exactly on the virtual clock',
+            'virtual time: timed waits and sleeps of the code advance a clock owned by the harness; rounding to ticks; EINTR retry is Python\'s', '5 C05', 'deadline'),
     'C06': ('model_checking',
             'TLA+ models PtyRead/FdRead/SockRead of read_nonblocking (one action per system call) x peer x process table checked by TLC in every interleaving; every single-call path of the TLC state graph replayed on the real transport by system-call interposition; recorded traces matched against the TLC state graph',
             'TLC proves prefix-in-order / EOF-only-when-drained / at-most-size / socket-timeout-restored for all interleavings in the bound; the same interleavings are forced on real pty children, pipes, pty and socket descriptors and socketpairs between the real system calls of the real code and the bytes compared',
@@ -70,6 +74,9 @@ def main():
             {'name': 'transport', 'path': 'spec/PtyRead.tla spec/FdRead.tla spec/SockRead.tla harness/world.py harness/graphtrace.py harness/checks/transport.py',
              'serves_properties': ['C06', 'C05'],
              'kind_free_text': 'TLC interleaving models of read_nonblocking + schedule replay on real transports through system-call interposition + trace matching against the TLC state graph'},
+            {'name': 'deadline', 'path': 'spec/Deadline.tla spec/DeadlineTrace.tla harness/checks/deadline.py harness/world.py harness/vclock.py',
+             'serves_properties': ['C05'],
+             'kind_free_text': 'TLC model of deadline arithmetic + TLC trace validation of timed executions on real transports under a virtual clock'},
             {'name': 'patternforms', 'path': 'spec/PatternForms.tla harness/checks/c20.py', 'serves_properties': ['C20'],
              'kind_free_text': 'TLC-enumerated decision table, one implementation test per row'},
         ],
